@@ -4,6 +4,7 @@ import RtcVerif.Model.C04Json
 import RtcVerif.Proofs.C04Validate
 import RtcVerif.Proofs.C04Store
 import RtcVerif.Proofs.C04Rows
+import RtcVerif.Proofs.C04Elem
 import Mathlib.Algebra.Order.Field.Basic
 import Mathlib.Tactic.Linarith
 import Mathlib.Tactic.Ring
@@ -332,6 +333,18 @@ theorem C04_critical_interval_max (o : HOpts) (g : Goal) (eps : Rat) (i : Nat) (
         | ninf => simp [finOr]
         | pinf => simp [finOr]
   simp [hardTargetStep, hlo, hhi, foldEq, subFin, addFin]
+
+/-- the mask code of `_gp_goal_hard_constraint` for a critical goal (`epsilon = 0`;
+    `Gen/HardConstraint.lean` proves the source equal to `hardElemX` on every run) is
+    `hardTargetStep … 0`, for any `violation_tolerance ≥ 0` -/
+theorem C04_critical_mask_code_is_model (o : HOpts) (g : Goal) (v : Rat) (i : Nat) (vt : XVal)
+    (ht : g.hasTargetBounds = true) (hc : g.critical = true) (hnom : g.nomAt 0 ≠ 0)
+    (hvt : xlt vt (XVal.fin 0) = false) :
+    hardElemX 0 (g.mAt 0 i) (g.MAt 0 i) (g.loAt 0) (g.hiAt 0) g.relaxation (g.nomAt 0) g.critical
+        g.hasMin g.hasMax g.hasTargetBounds o.equalityThreshold o.constraintRelaxation vt
+        o.fixMinimizedValues v
+      = (XVal.e (hardTargetStep o g 0 i).lo, XVal.e (hardTargetStep o g 0 i).hi) :=
+  hardElemX_target o g 0 v i vt ht hnom (Or.inl hc) hvt
 
 /-- **Critical goals are hard.**  Once a critical goal's interval `crit` has been put into the
     store — into an empty slot, or merged (`enforce="self"`) with an existing entry that shares a
